@@ -235,20 +235,21 @@ Theorem C06_optimize_sem_transport_partial : forall infer nodes o p tape vals,
                    sim nodes (po_nodes p) vals vals' (po_map p)).
 Proof. exact optimize_sem_transport. Qed.
 
-(* The pipeline with hypotheses on the INPUT graph only, for graphs without ArrayToVector, Zip,
-   A2B, B2A (simple_ops; A2B/B2A are excluded here only because well-typedness of the values of
-   the intermediate graph is not derived) and without tape operations that have a de-duplication key (nokey:
-   no CuckooHash / Shard / Join / Sort / ...): the graph is typed by an inference function infer
+(* The pipeline with hypotheses on the INPUT graph and run only, for graphs without ArrayToVector
+   and Zip (simple_ops) and without tape operations that have a de-duplication key (nokey: no
+   CuckooHash / Shard / Join / Sort / ...): the graph is typed by an inference function infer
    that gives a Constant the type of its literal (typed_nodes, infer_const), Constant nodes carry
-   the literal's type, constructors and getters carry the builder's types (meta_typed), nodes
-   have fewer than 2^64 dependencies.  Then the optimized graph evaluates under the tape
-   transported stage by stage, every node in the domain of the joined map keeps its value and
-   type, and the new output is the image of the old output and has its value. *)
+   the literal's type, constructors, getters, A2B and B2A carry the builder's types (meta_typed),
+   nodes have fewer than 2^64 dependencies, and the values of the run are well typed
+   (vals_typed; type soundness of evaluation is C09).  Then the optimized graph evaluates under
+   the tape transported stage by stage, every node in the domain of the joined map keeps its
+   value and type, and the new output is the image of the old output and has its value. *)
 Theorem C06_optimize_sem_partial_simple : forall infer nodes o p tape vals,
   infer_const infer -> typed_nodes infer nodes ->
   const_typed nodes -> few_deps nodes -> simple_ops nodes -> meta_typed nodes -> nokey nodes ->
   optimize_graph nodes o = Ok p ->
   eval_graph_nodes nodes tape = Ok vals ->
+  vals_typed nodes vals ->
   exists p1 p2 p3 p4,
     opt_const nodes o = Ok p1 /\ opt_meta (po_nodes p1) (po_output p1) = Ok p2 /\
     opt_dup (po_nodes p2) (po_output p2) = Ok p3 /\ opt_dangling (po_nodes p3) (po_output p3) = Ok p4 /\
@@ -269,6 +270,7 @@ Theorem C06_optimize_annots_partial : forall infer nodes o p tape vals,
   const_typed nodes -> few_deps nodes -> simple_ops nodes -> meta_typed nodes ->
   optimize_graph nodes o = Ok p ->
   eval_graph_nodes nodes tape = Ok vals ->
+  vals_typed nodes vals ->
   forall i j, nth_error (po_map p) i = Some (Some j) ->
     exists nd nd', nth_error nodes i = Some nd /\ 0 <= j /\ nth_error (po_nodes p) (Z.to_nat j) = Some nd' /\
                    incl (n_annots nd) (n_annots nd').
@@ -280,12 +282,13 @@ Theorem C06_meta_annots_partial : forall nodes o p tape vals,
     exists nd nd', nth_error nodes i = Some nd /\ 0 <= j /\ nth_error (po_nodes p) (Z.to_nat j) = Some nd' /\
                    incl (n_annots nd) (n_annots nd').
 Proof. exact meta_annots. Qed.
-(* full statement: the same for every typed graph, not only those without A2V/Zip/A2B/B2A *)
+(* full statement: the same for every typed graph, not only those without ArrayToVector / Zip *)
 Definition C06_optimize_annots_full : Prop := forall infer nodes o p,
   typed_nodes infer nodes -> const_typed nodes -> optimize_graph nodes o = Ok p ->
   annots_incl nodes (po_nodes p) (po_map p).
 
-(* the constant pass preserves these hypotheses (so they need only be assumed of the input) *)
+(* the constant pass preserves these hypotheses (so they need only be assumed of the input);
+   well-typedness of the values is preserved too (const_preserves_vals_typed) *)
 Theorem C06_const_preserves_hyps : forall infer nodes o p,
   const_typed nodes -> opt_const nodes o = Ok p ->
   const_typed (po_nodes p) /\
